@@ -275,6 +275,21 @@ func (in *inst) Body() {
 					}
 					return 0
 				})
+			case "await-terminated":
+				// wait until the server has terminated operation ID (error or complete frame)
+				pe, pc := fmt.Sprintf("frame:error:%d:", s.ID), fmt.Sprintf("frame:complete:%d:", s.ID)
+				vrt.Point("client awaits termination", nil, func() int {
+					if in.conn.Closed {
+						return 1
+					}
+					for _, e := range in.log.Snapshot() {
+						if strings.HasPrefix(e, pe) || strings.HasPrefix(e, pc) {
+							return 1
+						}
+					}
+					return 0
+				})
+				in.log.Add("client:saw-termination(%d)", s.ID)
 			case "close-frame":
 				vrt.Yield("client-send close")
 				in.log.Add("client:close-frame")
@@ -358,6 +373,29 @@ func (in *inst) Check(x *explore.Exec) (string, string) {
 		return ops[id]
 	}
 	closed := false
+	// id release: once the client has SEEN the termination of an operation, a new start with
+	// that id must be accepted and executed (unless the connection went away)
+	for i, e := range ev {
+		if !strings.HasPrefix(e, "client:saw-termination(") {
+			continue
+		}
+		id := strings.TrimSuffix(strings.TrimPrefix(e, "client:saw-termination("), ")")
+		restarted, executed, gone := false, false, false
+		for _, l := range ev[i+1:] {
+			if l == "client:start("+id+")" && !gone {
+				restarted = true
+			}
+			if restarted && l == "resolver:Subscription.s(n:"+id+")" {
+				executed = true
+			}
+			if !restarted && (strings.HasPrefix(l, "frame:CLOSE") || l == "client:disconnect") {
+				gone = true
+			}
+		}
+		if restarted && !executed {
+			return "ws:id-not-released-after-termination", fmt.Sprintf("operation %s had terminated (the client saw it), a new start with that id was not executed\n  %s", id, all)
+		}
+	}
 	for i, e := range ev {
 		switch {
 		case strings.HasPrefix(e, "frame:connection_ack"):
@@ -507,6 +545,10 @@ func scenarios(tier string) []*explore.Scenario {
 		}
 		add(scen{Proto: proto, Steps: []step{{Kind: "init"}, {Kind: "start", ID: 1}, {Kind: "stop", ID: 1}, {Kind: "await-cancel", ID: 1}}, Script: "block", InitFunc: "none"}, &two)
 		add(scen{Proto: proto, Steps: []step{{Kind: "init"}, {Kind: "start", ID: 1}, {Kind: "start", ID: 2}, {Kind: "stop", ID: 2}, {Kind: "await-cancel", ID: 2}}, Script: "block", InitFunc: "none"}, &one)
+		// id re-use after the previous instance terminated by itself (end / error / panic)
+		for _, script := range []string{"emit-end", "emit-error", "panic"} {
+			add(scen{Proto: proto, Steps: []step{{Kind: "init"}, {Kind: "start", ID: 1}, {Kind: "await-terminated", ID: 1}, {Kind: "start", ID: 1}, {Kind: "await-terminated", ID: 1}}, Script: script, InitFunc: "none"}, &one)
+		}
 		// id re-use right after a stop: the first instance may still be tearing down
 		for _, script := range []string{"block", "emit-end"} {
 			add(scen{Proto: proto, Steps: []step{{Kind: "init"}, {Kind: "start", ID: 1}, {Kind: "stop", ID: 1}, {Kind: "start", ID: 1}}, Script: script, InitFunc: "none"}, &two)
